@@ -84,6 +84,13 @@ func (v *Verifier) doCall(st *State, in ssa.Instruction, c *ssa.CallCommon) Valu
 		args = append(args, v.operand(st, a))
 	}
 	key, fn := v.calleeKey(c)
+	if mc, ok := c.Value.(*ssa.MakeClosure); ok && !c.IsInvoke() {
+		// direct call of a closure value: bind its free variables
+		fv := v.operand(st, mc)
+		if ci, ok := v.closures[fv.T]; ok {
+			return v.callClosure(st, in, ci, args, retT)
+		}
+	}
 	if key == "" {
 		// dynamic call of a function value
 		fv := v.operand(st, c.Value)
@@ -839,6 +846,12 @@ func init() {
 		}
 		nativeMods[k] = pureMods
 	}
+	nativeStubs["builtin.(error).Error"] = func(v *Verifier, st *State, in ssa.Instruction, c *ssa.CallCommon, args []Value, retT types.Type) Value {
+		r := v.freshValue(st, "errtext", retT)
+		v.assumeTypeFacts(st, r)
+		return r
+	}
+	nativeMods["builtin.(error).Error"] = pureMods
 	nativeStubs["errors.New"] = func(v *Verifier, st *State, in ssa.Instruction, c *ssa.CallCommon, args []Value, retT types.Type) Value {
 		return v.env.freshErr(st)
 	}
@@ -889,6 +902,77 @@ func init() {
 		return Value{T: r, Sort: "Real", GoT: retT}
 	}
 	nativeMods["math.Round"] = pureMods
+	// sort.Slice(x, less): the elements of x are permuted (trusted: sort.Slice only swaps elements);
+	// less may be called for any pair of valid indices, so its precondition must hold for all of them.
+	nativeStubs["sort.Slice"] = func(v *Verifier, st *State, in ssa.Instruction, c *ssa.CallCommon, args []Value, retT types.Type) Value {
+		mi, ok := c.Args[0].(*ssa.MakeInterface)
+		if !ok {
+			return v.havocCall(st, in, "sort.Slice on a non-literal interface", retT)
+		}
+		sl := v.operand(st, mi.X)
+		slT, ok := mi.X.Type().Underlying().(*types.Slice)
+		if !ok {
+			return v.havocCall(st, in, "sort.Slice on a non-slice", retT)
+		}
+		ln := sliceLen(sl.T)
+		if ci, ok := v.closures[args[1].T]; ok {
+			if ct := v.prog.contract[funcKey(ci.fn)]; ct != nil && len(ci.fn.Params) == 2 {
+				i0 := v.env.ctx.freshConst("sort.i", "Int")
+				j0 := v.env.ctx.freshConst("sort.j", "Int")
+				s2 := st.clone()
+				s2.assume(and("(<= 0 "+i0+")", "(< "+i0+" "+ln+")", "(<= 0 "+j0+")", "(< "+j0+" "+ln+")"))
+				s2.addCand(i0)
+				s2.addCand(j0)
+				vars := map[string]Value{
+					ci.fn.Params[0].Name(): {T: i0, Sort: "Int", GoT: types.Typ[types.Int]},
+					ci.fn.Params[1].Name(): {T: j0, Sort: "Int", GoT: types.Typ[types.Int]},
+				}
+				for k, fv := range ci.fn.FreeVars {
+					if k < len(ci.bindings) {
+						b := ci.bindings[k]
+						if b.Addr != nil {
+							vars["&"+fv.Name()] = b
+							vars[fv.Name()] = v.loadAddr(s2, b, in)
+						} else {
+							vars[fv.Name()] = b
+						}
+					}
+				}
+				se := &SpecEnv{e: v.env, s: s2, vars: vars, pkg: ct.Pkg, qn: &v.qn}
+				for _, r := range ct.Requires {
+					v.emit(s2, "pre", "callback."+ci.fn.Name()+"."+r.Label+"@"+v.siteLabel(in), se.evalBool(r.E), v.contractProps(), "less callback precondition for all index pairs: "+r.Text, in)
+				}
+			} else {
+				v.notes = append(v.notes, "sort.Slice: comparator without contract at "+v.posOf(in))
+			}
+		}
+		// permutation of the elements
+		es := v.env.sr.sortOf(slT.Elem())
+		name := elemMapNameT(slT.Elem())
+		v.env.noteMapType(name, slT.Elem(), "elem")
+		ms := arr("Int", arr("Int", es))
+		E := v.env.heapGet(st, name, ms)
+		A := v.env.ctx.freshConst("sorted.arr", arr("Int", es))
+		v.env.ctx.fresh++
+		perm := fmt.Sprintf("perm!%d", v.env.ctx.fresh)
+		v.env.ctx.declFun(perm, []string{"Int"}, "Int")
+		off := sliceOff(sl.T)
+		base := sliceBase(sl.T)
+		st.assume("(forall ((i Int)) (! (=> (and (<= 0 i) (< i " + ln + ")) (and (<= 0 (" + perm + " i)) (< (" + perm + " i) " + ln + ") (= (select " + A + " (+ " + off + " i)) (select (select " + E + " " + base + ") (+ " + off + " (" + perm + " i)))))) :pattern ((select " + A + " (+ " + off + " i)))))")
+		st.assume("(forall ((k Int)) (! (=> (or (< k " + off + ") (>= k (+ " + off + " " + ln + "))) (= (select " + A + " k) (select (select " + E + " " + base + ") k))) :pattern ((select " + A + " k))))")
+		v.env.heapSet(st, name, ms, sto(E, base, A))
+		return Value{}
+	}
+	nativeMods["sort.Slice"] = func(v *Verifier, c *ssa.CallCommon, maps map[string]string) bool {
+		if mi, ok := c.Args[0].(*ssa.MakeInterface); ok {
+			if slT, ok := mi.X.Type().Underlying().(*types.Slice); ok {
+				es := v.env.sr.sortOf(slT.Elem())
+				maps[elemMapNameT(slT.Elem())] = arr("Int", arr("Int", es))
+				return false
+			}
+		}
+		return true
+	}
 	nativeStubs["reflect.TypeOf"] = func(v *Verifier, st *State, in ssa.Instruction, c *ssa.CallCommon, args []Value, retT types.Type) Value {
 		// the reflect.Type of x is represented by x itself; reflect.TypeOf(nil) is the nil Type, so a
 		// following .Kind() is a method call on a nil interface (a panic site)
